@@ -109,6 +109,10 @@ fn read_exact_timeout(s: &mut std::os::unix::net::UnixStream, n: usize) -> Optio
 /// Run `glonaxctl <sub> <word>` against a stub daemon announcing `version`; returns the bytes the client
 /// wrote after the handshake, or None if the binary is missing.
 fn cli_run(dir: &std::path::Path, sub: &str, word: &str, version: (u8, u8, u8)) -> Option<Vec<u8>> {
+    cli_run_args(dir, &[sub, "--", word], version)
+}
+
+fn cli_run_args(dir: &std::path::Path, args: &[&str], version: (u8, u8, u8)) -> Option<Vec<u8>> {
     let sock = dir.join("d.sock");
     let _ = std::fs::remove_file(&sock);
     let listener = UnixListener::bind(&sock).ok()?;
@@ -119,7 +123,7 @@ fn cli_run(dir: &std::path::Path, sub: &str, word: &str, version: (u8, u8, u8)) 
         return None;
     }
     let mut child = std::process::Command::new(exe)
-        .arg("-c").arg(&conf).arg("-s").arg(&sock).arg(sub).arg("--").arg(word)
+        .arg("-c").arg(&conf).arg("-s").arg(&sock).args(args)
         .stdout(std::process::Stdio::null()).stderr(std::process::Stdio::null())
         .spawn().ok()?;
     listener.set_nonblocking(false).ok()?;
@@ -307,6 +311,30 @@ pub fn run(out: &mut Out, tier: &str, rng: &mut Rng) {
                     Some(bytes) => {
                         out.count(&format!("cli {}", if compat { "compatible" } else { "incompatible" }));
                         out.case(&format!("cli {} {} {}", sub, hex(w.as_bytes()), compat as u8), &hex(&bytes), true);
+                    }
+                }
+            }
+        }
+    }
+    // ---- the sub-commands without an on/off word: engine <rpm> (speeds at and around every bound anything downstream uses),
+    // engine-shutdown, machine-shutdown, to a compatible and to an incompatible daemon
+    if !missing {
+        let mut plain: Vec<Vec<String>> = vec![vec!["engine-shutdown".into()], vec!["machine-shutdown".into()]];
+        for rpm in [0u16, 1, 799, 800, 899, 900, 901, 1500, 2099, 2100, 2101, 2200, 2201, 65535] {
+            plain.push(vec!["engine".into(), rpm.to_string()]);
+        }
+        for ver in [(3u8, 5u8, 0u8), (3, 6, 0)] {
+            let compat = ver == (3, 5, 0);
+            for a in &plain {
+                if !compat && a.len() == 2 && a[1] != "1500" {
+                    continue;
+                }
+                let refs: Vec<&str> = a.iter().map(|x| x.as_str()).collect();
+                match cli_run_args(&dir, &refs, ver) {
+                    None => out.note("glonaxctl plain sub-command run could not be set up".into()),
+                    Some(bytes) => {
+                        out.count("cli plain sub-command");
+                        out.case(&format!("cli2 {} {} {}", a[0], if a.len() == 2 { a[1].clone() } else { "-".into() }, compat as u8), &hex(&bytes), true);
                     }
                 }
             }
